@@ -30,6 +30,28 @@ def strategy(tier):
                    st.fixed_dictionaries({'h': O.history('refdata', 2, 12, focus='refs')}))
 
 
+def lookup_key_has_error(doc, formulas):
+  """True if every given formula is a lookup whose key column (in the looked-up table) currently holds an error."""
+  import re
+  if not formulas:
+    return False
+  for f in formulas:
+    ms = re.findall(r'(\w+)\.lookup(?:Records|One)\(([^)]*)\)', f or '')
+    hit = False
+    for tname, args in ms:
+      if tname not in doc.engine.tables:
+        continue
+      rep = doc.fetch_repr(tname)
+      for key in re.findall(r'(\w+)=', args):
+        if key in ('order_by', 'sort_by'):
+          continue
+        if any(eqv.is_error_cell(v) for v in rep[3].get(key, [])):
+          hit = True
+    if not hit:
+      return False
+  return True
+
+
 def compare_with_fresh(doc):
   d2, calc = fresh.fresh_load(doc, formulas=False)
   if not calc.ok:
@@ -88,6 +110,12 @@ def run_case(case):
         out.fail('C05:reload:stored-error-reraised-as-NoneType',
                  'cell %s.%s[%s] reads an error value stored in a data cell: the live engine re-raises the original '
                  'exception (%r), a freshly loaded engine raises a wrapper around None (%r)' % (t, c, r, va, vb),
+                 [[t2, c2, r2, a2, b2] for (t2, c2, r2, a2, b2) in real[:6]])
+        return True
+      if lookup_key_has_error(hr.doc, [fm.get((x[0], x[1]), '') for x in real]):
+        out.fail('C05:stale:lookup-key-cell-error',
+                 'cell %s.%s[%s]: the lookup index is not updated for rows whose key cell became an error value '
+                 '(incremental %r, fresh %r; formula %r)' % (t, c, r, va, vb, fm.get((t, c))),
                  [[t2, c2, r2, a2, b2] for (t2, c2, r2, a2, b2) in real[:6]])
         return True
       if all(is_keyerror(x[3]) != is_keyerror(x[4]) for x in real) and \
